@@ -655,7 +655,7 @@ class Unroller:
 
 
 # ---------------------------------------------------------------------------------------------- views
-VIEWS = (("inline",), ("fold",), ("inline", "fold"), ("unroll",), ("inline", "unroll", "fold"))
+VIEWS = (("inline",), ("fold",), ("unroll",), ("inline", "unroll", "fold"))
 
 
 def _functions(ix, m):
